@@ -192,3 +192,103 @@ Definition dec_full_chunks (chunksize ct_len : N) : N := (ct_len - 1 - 16) / (ch
 (* length of the ciphertext the encoder produces for a non-empty plaintext *)
 Definition enc_ct_len (chunksize plain_len : N) : N :=
   plain_len + 16 * (enc_full_chunks chunksize plain_len + 1) + 16.
+
+(* ------------------------------------------------------------------------------------------------ *)
+(* Fields a parsed version-4 signature carries (SubpacketDecode :10870, SubpacketParse :11271,        *)
+(* PacketDecodeTag2 :11552, and the four places that build a TMCG_OpenPGP_Signature from the context:  *)
+(* SignatureParse, PublicKeyBlockParse_Tag2 (public and private key blocks), MessageParse_Tag2)        *)
+(* ------------------------------------------------------------------------------------------------ *)
+Record sig_fields := {
+  sf_version : N; sf_type : N; sf_pkalgo : N; sf_hashalgo : N;
+  sf_created : N; sf_sigexp : N; sf_keyexp : N;
+  sf_flags : list N; sf_issuer : list N
+}.
+
+(* one subpacket: (type without the critical bit, body, rest); lengths below 192 in one octet, 192..254 in two,
+   255 + four octets; a zero length (no type octet) is an error *)
+Definition subpkt_split (l : list N) : option (N * list N * list N) :=
+  match l with
+  | a :: r =>
+      let hl := if a <? 192 then Some (a, r)
+                else if a <? 255 then match r with b :: r' => Some ((a - 192) * 256 + b + 192, r') | [] => None end
+                else match r with
+                     | b :: c :: d :: e :: r' => Some (u32 (b * 16777216 + c * 65536 + d * 256 + e), r')
+                     | _ => None
+                     end in
+      match hl with
+      | Some (n, t :: r') =>
+          if n =? 0 then None
+          else if len r' <? n - 1 then None
+          else Some (t mod 128, firstn (N.to_nat (n - 1)) r', skipn (N.to_nat (n - 1)) r')
+      | _ => None
+      end
+  | [] => None
+  end.
+
+Definition set_time (body : list N) : option N :=
+  if (length body =? 4)%nat then Some (be_value body) else None.
+
+(* the subpacket types that carry the modelled fields; every other type is left to the library
+   (the harness only feeds areas produced by the library's own encoders) *)
+Fixpoint subpkts_fields (fuel : nat) (area : list N) (f : sig_fields) : option sig_fields :=
+  match area with
+  | [] => Some f
+  | _ =>
+    match fuel with
+    | O => None
+    | S k =>
+      match subpkt_split area with
+      | None => None
+      | Some (t, body, rest) =>
+          let upd :=
+            if t =? 2 then match set_time body with
+                           | Some v => Some {| sf_version := sf_version f; sf_type := sf_type f; sf_pkalgo := sf_pkalgo f; sf_hashalgo := sf_hashalgo f;
+                                               sf_created := v; sf_sigexp := sf_sigexp f; sf_keyexp := sf_keyexp f; sf_flags := sf_flags f; sf_issuer := sf_issuer f |}
+                           | None => None end
+            else if t =? 3 then match set_time body with
+                           | Some v => Some {| sf_version := sf_version f; sf_type := sf_type f; sf_pkalgo := sf_pkalgo f; sf_hashalgo := sf_hashalgo f;
+                                               sf_created := sf_created f; sf_sigexp := v; sf_keyexp := sf_keyexp f; sf_flags := sf_flags f; sf_issuer := sf_issuer f |}
+                           | None => None end
+            else if t =? 9 then match set_time body with
+                           | Some v => Some {| sf_version := sf_version f; sf_type := sf_type f; sf_pkalgo := sf_pkalgo f; sf_hashalgo := sf_hashalgo f;
+                                               sf_created := sf_created f; sf_sigexp := sf_sigexp f; sf_keyexp := v; sf_flags := sf_flags f; sf_issuer := sf_issuer f |}
+                           | None => None end
+            else if t =? 16 then
+              if (length body =? 8)%nat
+              then Some {| sf_version := sf_version f; sf_type := sf_type f; sf_pkalgo := sf_pkalgo f; sf_hashalgo := sf_hashalgo f;
+                           sf_created := sf_created f; sf_sigexp := sf_sigexp f; sf_keyexp := sf_keyexp f; sf_flags := sf_flags f; sf_issuer := body |}
+              else None
+            else if t =? 27 then
+              if (32 <? length body)%nat then None
+              else Some {| sf_version := sf_version f; sf_type := sf_type f; sf_pkalgo := sf_pkalgo f; sf_hashalgo := sf_hashalgo f;
+                           sf_created := sf_created f; sf_sigexp := sf_sigexp f; sf_keyexp := sf_keyexp f; sf_flags := body; sf_issuer := sf_issuer f |}
+            else Some f in
+          match upd with Some f' => subpkts_fields k rest f' | None => None end
+      end
+    end
+  end.
+
+(* body of a version-4 signature packet -> fields of the signature object.
+   [key_context]: the signature is read from a key block (the key expiration time is kept); signatures read by
+   SignatureParse or from a message get key expiration 0 *)
+Definition sig_body_fields (key_context : bool) (body : list N) : option sig_fields :=
+  match body with
+  | v :: t :: pk :: h :: l1 :: l2 :: r =>
+      if negb (v =? 4) then None
+      else
+        let n := N.to_nat (l1 * 256 + l2) in
+        if (length r <? n)%nat then None
+        else match subpkts_fields (S n) (firstn n r)
+                     {| sf_version := v; sf_type := t; sf_pkalgo := pk; sf_hashalgo := h; sf_created := 0; sf_sigexp := 0;
+                        sf_keyexp := 0; sf_flags := []; sf_issuer := repeat 0 8 |} with
+             | Some f => Some (if key_context then f
+                               else {| sf_version := sf_version f; sf_type := sf_type f; sf_pkalgo := sf_pkalgo f; sf_hashalgo := sf_hashalgo f;
+                                       sf_created := sf_created f; sf_sigexp := sf_sigexp f; sf_keyexp := 0; sf_flags := sf_flags f; sf_issuer := sf_issuer f |})
+             | None => None
+             end
+  | _ => None
+  end.
+
+(* the validity verdict of a parsed signature: CheckValidity on exactly these fields *)
+Definition sig_fields_validity (current keycreation : Z) (f : sig_fields) : validity :=
+  check_validity current (Z.of_N (sf_created f)) (Z.of_N (sf_sigexp f)) keycreation (sf_hashalgo f).
